@@ -393,6 +393,24 @@ fn build_eq_expr(
     let cmp = &field.hattrs.cmp;
     let this = source.this_of(field);
 
+    // `Eq` is customized by `#[eq(...)]` or `#[ord(...)]`, but the derived `==` prefers
+    // `#[partial_eq(...)]` and `#[partial_ord(...)]`: what it really compares has to be `Eq`.
+    let customized = [&cmp.eq, &cmp.ord]
+        .iter()
+        .any(|a| a.by.is_some() || a.key.is_some());
+    let preferred = |a: &HelperAttributeForCompareOp| -> Option<TokenStream> {
+        if !(customized && cmp.partial_eq_derived) {
+            return None;
+        }
+        if a.by.is_some() {
+            return Some(quote!());
+        }
+        a.key.as_ref().map(|key| key.build_eq_checker(this.clone()))
+    };
+
+    if let Some(checker) = preferred(&cmp.partial_eq) {
+        return Ok(checker);
+    }
     cmp.eq.push_bounds_to(use_bounds, wcb);
     if cmp.eq.by.is_some() {
         return Ok(quote!());
@@ -401,6 +419,9 @@ fn build_eq_expr(
         return Ok(key.build_eq_checker(this));
     }
 
+    if let Some(checker) = preferred(&cmp.partial_ord) {
+        return Ok(checker);
+    }
     cmp.ord.push_bounds_to(use_bounds, wcb);
     if cmp.ord.by.is_some() {
         return Ok(quote!());
@@ -803,6 +824,8 @@ pub(super) struct HelperAttributesForCompareOp {
     eq: HelperAttributeForCompareOp,
     partial_eq: HelperAttributeForCompareOp,
     hash: HelperAttributeForCompareOp,
+    /// `PartialEq` is derived together with the other traits.
+    partial_eq_derived: bool,
 }
 impl HelperAttributesForCompareOp {
     pub fn from_attrs(attrs: &[Attribute], kinds: &HelperAttributeKinds) -> Result<Self> {
@@ -837,6 +860,7 @@ impl HelperAttributesForCompareOp {
             eq,
             partial_eq,
             hash,
+            partial_eq_derived: kinds.is_derived_cmp(CompareOp::PartialEq),
         })
     }
     pub fn push_bounds(&self, op: CompareOp, wcb: &mut WhereClauseBuilder) -> bool {
